@@ -33,6 +33,7 @@ const leaseTime = time.Hour
 // Sys is one DHCPv4 server configuration under exploration.
 type Sys struct {
 	FastPath bool      // with real kernel maps behind the loader and the native XDP program (C03)
+	Sweep    bool      // additionally sweep all IP identification values through the fast path in every state
 	fpProbes []FPProbe
 	Variant  string // "direct" | "relay"
 	NClients int
@@ -67,6 +68,9 @@ func NewSys(variant string, nclients int, cidr string, nunits int, reqUnits []in
 }
 
 func (s *Sys) Name() string {
+	if s.Sweep {
+		return fmt.Sprintf("dhcp4fpsweep/%s/c%d/%s", s.Variant, s.NClients, s.CIDR)
+	}
 	if s.FastPath {
 		return fmt.Sprintf("dhcp4fp/%s/c%d/%s", s.Variant, s.NClients, s.CIDR)
 	}
@@ -373,6 +377,9 @@ func (in *inst) Observe() map[string]any {
 	obs := map[string]any{"lease": lease, "expired": expired, "altlease": altlease, "drain": []int{-9}}
 	if in.fp != nil {
 		obs["fp"] = in.fpObserve()
+		if in.s.Sweep {
+			obs["sweep"] = in.fpSweep()
+		}
 	}
 	return obs
 }
